@@ -253,16 +253,23 @@ pub fn text_of_abs(v: &Value) -> String {
 }
 
 /// Abstract syntax -> real instruction (through the parser), checked by abstracting the result again: the
-/// abstraction function and the printer above must be inverse on the alphabets, otherwise the binding is
-/// broken (harness error, surfaces as a `panic` of the case).
-pub fn real_instr(v: &Value) -> Instruction {
+/// abstraction function and the printer above must be inverse on the alphabets.  An `Err` means the case
+/// cannot be reproduced on the real library (the parser refuses the text or reads it differently): that is not
+/// an observable of C22-C27, so replays report it as a skipped case with a divergence, never as a violation.
+pub fn try_real_instr(v: &Value) -> Result<Instruction, String> {
     let text = text_of_abs(v);
-    let i = util::instr(&text);
-    let back = abs_instr(&i).unwrap_or_else(|| panic!("no abstraction for {text}"));
+    let i = Instruction::from_str(&text).map_err(|e| format!("alphabet instruction does not parse: {text:?}: {e}"))?;
+    let back = abs_instr(&i).ok_or_else(|| format!("no abstraction for {text}"))?;
     if &back != v {
-        panic!("abstraction round trip failed for {text}: {v} vs {back}");
+        return Err(format!("abstraction round trip failed for {text}: {v} vs {back}"));
     }
-    i
+    Ok(i)
+}
+
+pub fn not_reproduced(why: String) -> Outcome {
+    let mut o = Outcome::skip();
+    o.diverge(format!("case not reproduced on the real library: {why}"));
+    o
 }
 
 // ------------------------------------------------------------------------------- real summaries and graphs
@@ -600,8 +607,14 @@ pub fn replay_block(ctx: &Ctx, case: &Value) -> Outcome {
         let program = util::program(&text);
         return judge_block(&pid, &program, index, None, None);
     }
-    let body: Vec<Instruction> = arr(case, "src").iter().map(real_instr).collect();
-    let term: Vec<Instruction> = arr(case, "term").iter().map(real_instr).collect();
+    let body: Vec<Instruction> = match arr(case, "src").iter().map(try_real_instr).collect() {
+        Ok(b) => b,
+        Err(e) => return not_reproduced(e),
+    };
+    let term: Vec<Instruction> = match arr(case, "term").iter().map(try_real_instr).collect() {
+        Ok(t) => t,
+        Err(e) => return not_reproduced(e),
+    };
     let body_text: Vec<String> = body.iter().map(|i| i.to_quil_or_debug()).collect();
     let term_text: Option<String> = term.first().map(|i| i.to_quil_or_debug());
     // every second case (and every case that would otherwise have no block at all) is placed between two
@@ -609,7 +622,10 @@ pub fn replay_block(ctx: &Ctx, case: &Value) -> Outcome {
     let wrap = (body.is_empty() && term.is_empty()) || crate::runner::hash_line(&case.to_string()) % 2 == 1;
     let frames: Vec<Value> = arr(case, "frames").clone();
     let (text, index) = program_text(&frames, &body_text, term_text.as_ref(), wrap);
-    let program = util::program(&text);
+    let program = match Program::from_str(&text) {
+        Ok(p) => p,
+        Err(e) => return not_reproduced(format!("program does not parse: {e}")),
+    };
     judge_block(&pid, &program, index, Some(s(case, "res")), Some(edges_from_json(&case["edges"])))
 }
 
